@@ -216,6 +216,9 @@ func offerScenario(t int, seed int64, slow bool) ([]map[string]any, error) {
 	if overlap {
 		limit, va, qcap = 8, []uint8{1}, 50
 	}
+	// every other overlap scenario mixes versions: the held offer comes from a version-0 offerer, the offers that follow from a
+	// version-1 one - "already being received" does not depend on who sends the bytes or in which version (sweep mutant C/24-C09)
+	mixed := overlap && t%10 == 8
 	st := &netsim.RadiusStore{}
 	B, err := netsim.NewNode(sw, netsim.NodeOpts{IP: "10.0.0.2", Port: 9002, MaxUtp: limit, QueueCap: qcap, Store: st})
 	if err != nil {
@@ -232,6 +235,14 @@ func offerScenario(t int, seed int64, slow bool) ([]map[string]any, error) {
 		return nil, err
 	}
 	defer A.Stop()
+	var A0 *netsim.Node
+	if mixed {
+		A0, err = netsim.NewNode(sw, netsim.NodeOpts{IP: "10.0.0.3", Port: 9003, Versions: []uint8{0}, MaxUtp: 16})
+		if err != nil {
+			return nil, err
+		}
+		defer A0.Stop()
+	}
 	ctl := controllerOf(B)
 	bid := B.P.Self().ID()
 	// radius 256 leaves the (many) ids at log distance 256 outside; the maximum radius admits everything
@@ -273,12 +284,13 @@ func offerScenario(t int, seed int64, slow bool) ([]map[string]any, error) {
 	type held struct {
 		keys []int
 		cid  uint16
+		from *netsim.Node
 	}
 	var holds []held
-	transfer := func(cid uint16, items [][]byte) error {
+	transfer := func(from *netsim.Node, cid uint16, items [][]byte) error {
 		ctx, cancel := context.WithTimeout(context.Background(), 12*time.Second)
 		defer cancel()
-		stream, err := A.P.Utp.DialWithCid(ctx, B.P.Self(), cid)
+		stream, err := from.P.Utp.DialWithCid(ctx, B.P.Self(), cid)
 		if err != nil {
 			return err
 		}
@@ -332,7 +344,11 @@ func offerScenario(t int, seed int64, slow bool) ([]map[string]any, error) {
 		free := limit - heldIn(ctl)
 		relBefore := releasedIn(ctl)
 		qfull := len(B.Queue) >= qcap
-		ev := map[string]any{"ev": "of.offer", "o": o, "version": version, "keys": kfacts, "limit": limit, "free": free, "queuefull": qfull,
+		from, ver := A, version
+		if mixed && o == 0 {
+			from, ver = A0, 0
+		}
+		ev := map[string]any{"ev": "of.offer", "o": o, "version": ver, "keys": kfacts, "limit": limit, "free": free, "queuefull": qfull,
 			"decoded": false, "verdicts": []int{}, "cid": 0, "transfer": "none", "delivered": false, "dkeys": []int{}, "dequal": false, "detail": "", "race": race}
 		var gate chan struct{}
 		if race && o == 0 && n > 0 {
@@ -349,7 +365,7 @@ func offerScenario(t int, seed int64, slow bool) ([]map[string]any, error) {
 			return nil, err
 		}
 		tSend := time.Now()
-		resp, err := A.D5.TalkRequest(B.P.Self(), string(portalwire.History), append([]byte{portalwire.OFFER}, ob...))
+		resp, err := from.D5.TalkRequest(B.P.Self(), string(portalwire.History), append([]byte{portalwire.OFFER}, ob...))
 		tReply := time.Now()
 		for i, ki := range perm {
 			kfacts[i]["inflight"] = inflight[ki] && tReply.Before(sureUntil[ki])
@@ -365,7 +381,7 @@ func offerScenario(t int, seed int64, slow bool) ([]map[string]any, error) {
 		var verdicts []int // 0 = accepted, other codes as in version 1; version 0: 0 accepted / 1 declined
 		var cidv uint16
 		if len(resp) > 0 && resp[0] == portalwire.ACCEPT {
-			if version == 1 {
+			if ver == 1 {
 				acc := &portalwire.AcceptV1{}
 				if err := acc.UnmarshalSSZ(resp[1:]); err == nil {
 					ev["decoded"] = true
@@ -421,7 +437,7 @@ func offerScenario(t int, seed int64, slow bool) ([]map[string]any, error) {
 			}
 			switch kind {
 			case "hold":
-				holds = append(holds, held{accIdx, cidv})
+				holds = append(holds, held{accIdx, cidv, from})
 			case "correct", "short", "long":
 				send := items
 				if kind == "short" {
@@ -432,7 +448,7 @@ func offerScenario(t int, seed int64, slow bool) ([]map[string]any, error) {
 				} else if kind == "long" {
 					send = append(append([][]byte{}, items...), []byte{9, 9, 9})
 				}
-				if err := transfer(cidv, send); err != nil {
+				if err := transfer(from, cidv, send); err != nil {
 					ev["detail"] = "transfer: " + err.Error()
 					ev["transfer"] = kind + "-failed"
 				} else if qfull {
@@ -440,7 +456,7 @@ func offerScenario(t int, seed int64, slow bool) ([]map[string]any, error) {
 				} else if el := waitDelivery(map[bool]time.Duration{true: 4 * time.Second, false: 700 * time.Millisecond}[kind == "correct"]); el != nil {
 					ev["delivered"] = true
 					dk := []int{}
-					eq := len(el.ContentKeys) == len(el.Contents) && el.Node == A.P.Self().ID()
+					eq := len(el.ContentKeys) == len(el.Contents) && el.Node == from.P.Self().ID()
 					for i, k := range el.ContentKeys {
 						found := -1
 						for ui, u := range universe {
@@ -507,7 +523,7 @@ func offerScenario(t int, seed int64, slow bool) ([]map[string]any, error) {
 		for len(B.Queue) > 0 {
 			<-B.Queue
 		}
-		if err := transfer(h.cid, items); err != nil {
+		if err := transfer(h.from, h.cid, items); err != nil {
 			ev["detail"] = err.Error()
 		} else if el := waitDelivery(4 * time.Second); el != nil {
 			ev["delivered"] = true
